@@ -31,6 +31,10 @@ def family(name, ctx, prefix=""):
         return "typed-prefix-contains-a-pipe-character"
     if " ~" in prefix:
         return "typed-prefix-has-a-blank-followed-by-tilde"
+    if prefix.endswith("$"):
+        # the line then ends in `$` (escaped, or inside single quotes), which the dispatcher takes for the start of a
+        # variable name whatever protects it
+        return "typed-prefix-ending-in-a-dollar-goes-to-the-variable-completer"
     if ctx == "unq" and re.search(r"\$[A-Za-z_]", prefix):
         return "unquoted:prefix-that-looks-like-a-variable-reference-is-completed-unescaped"
     dollar_ref = re.search(r"\$[A-Za-z0-9_$?{(]", name) is not None
@@ -52,13 +56,19 @@ def family(name, ctx, prefix=""):
     if ctx == "dq":
         if name.endswith("\\"):
             return "double-quoted:trailing-backslash-escapes-the-closing-quote"
+        if '\\"' in name:
+            return "double-quoted:backslash-directly-before-a-double-quote-in-name"
         if dollar_ref:
             return "double-quoted:dollar-reference-in-name-is-expanded"
         if bq_pair:
             return "double-quoted:backquote-pair-in-name-is-run"
+        if name.startswith("~"):
+            return "quoted:leading-tilde-is-taken-for-the-home-directory-by-the-completer"
         return None
     if "'" in name:
         return "single-quoted:name-contains-a-single-quote"
+    if name.startswith("~"):
+        return "quoted:leading-tilde-is-taken-for-the-home-directory-by-the-completer"
     return None
 
 
@@ -119,7 +129,13 @@ def judge(case):
         except OSError:
             return ("inconclusive", "cannot create entry", {})
     name, isd, ctx = case["name"], case["is_dir"], case["ctx"]
-    prefix = unique_prefix(name, pop)
+    if case.get("cd"):
+        # unique among the *directories*; files may (and one does) share it
+        prefix = name[:min(3, len(name))]
+        if any(d and n != name and n.startswith(prefix) for n, d in pop):
+            prefix = None
+    else:
+        prefix = unique_prefix(name, pop)
     res = {"name": name, "ctx": ctx, "is_dir": isd, "population": [n for n, _ in pop]}
     if prefix is None:
         return ("held", None, dict(res, skipped="no unique prefix of <=3 characters"))
@@ -134,18 +150,25 @@ def judge(case):
     typed = type_prefix(prefix, ctx)
     if typed is None:
         return ("held", None, dict(res, skipped="prefix cannot be typed in this context"))
-    res["typed"] = "vp_argv " + typed
+    cd = bool(case.get("cd"))
+    res["typed"] = ("cd " if cd else "vp_argv ") + typed
     s = ptydrv.PtySession(sb)
     try:
         ok, _ = s.wait_prompt(15)
         if not ok:
             return ("inconclusive", "no prompt", res)
-        s.send("vp_argv " + typed)
+        s.send(("cd " if cd else "vp_argv ") + typed)
         s.drain(0.05, 0.6)
         s.send("\t")
         echoed = s.drain(0.15, 1.5)
         if isd and ctx != "unq":
             s.send('"' if ctx == "dq" else "'")
+        if cd:
+            # what TAB inserted after `cd` is observed by turning the line into `vp_argv cd <word>` (Ctrl-A, prefix)
+            s.send("\x01")
+            s.drain(0.05, 0.3)
+            s.send("vp_argv ")
+            s.drain(0.05, 0.3)
         s.send("\r")
         t0 = time.time()
         rec = None
@@ -161,6 +184,8 @@ def judge(case):
         if not s.alive():
             return ("violated", "C20:pty:shell-died:%s" % ctx, res)
         want = [(sub + "/" if sub else "") + name + ("/" if isd else "")]
+        if cd:
+            want = ["cd"] + want
         fam = family((sub + "/" if sub else "") + name, ctx, prefix)
         if rec is None:
             # nothing ran: continuation prompt, background, syntax error ...
@@ -174,6 +199,8 @@ def judge(case):
         if fam:
             return ("violated", "C20:%s" % fam, res)
         chars = "".join(sorted({("SP" if c == " " else c) for c in name if not c.isalnum()}))
+        if cd:
+            return ("violated", "C20:pty:after-cd:%s:chars=%s:%s" % (ctx, chars, sym), res)
         if sub:
             dchars = "".join(sorted({("SP" if c == " " else c) for c in sub if not c.isalnum()}))
             return ("violated", "C20:pty:%s:in-subdir-chars=%s:chars=%s:%s%s" % (ctx, dchars, chars, sym, ":dir" if isd else ""), res)
@@ -209,7 +236,8 @@ def run(tier, seed):
                 "quotes, $ * { } ~ # | & ; < > ( ) \\ ! ? [ ] ` , ^ = %%, non-ASCII; a quarter are directories), one entry "
                 "completed per session from its shortest unique prefix (<=3 chars) in unquoted / open-double-quote / "
                 "open-single-quote context, 40%% of the sessions with the entries inside a sub-directory whose own name is drawn "
-                "from the same alphabet (the word typed is dir/prefix); in-process: every name of length<=%d over a 30-symbol alphabet x 3 contexts "
+                "from the same alphabet (the word typed is dir/prefix), and sessions completing a directory after `cd` next to a file that "
+                "shares the typed prefix (what TAB inserted is read back by turning the line into `vp_argv cd <word>`); in-process: every name of length<=%d over a 30-symbol alphabet x 3 contexts "
                 "(file and directory), plus candidate sets for 5 populations x all prefixes x {path, cd}.  Non-trivial = name "
                 "contains a non-alphanumeric character; distinct by case." % (3 if thorough else 2))
     rep.assumptions = ["a prefix is typed the way cicada's own tokenizer reads it back (escaped, else raw); prefixes that "
@@ -245,6 +273,21 @@ def run(tier, seed):
         name, isd = rng.choice(pop)
         cases.append({"pop": pop, "name": name, "is_dir": isd, "ctx": rng.choice(["unq", "dq", "sq"]),
                       "extra": rng.choice([0, 0, 1, 2, 3, 5])})
+    # after `cd`: only directories are candidates, so a file that shares the typed prefix must not get in the way
+    for _ in range(1200 if thorough else 120):
+        pop = [(n, d) for n, d in gen_population(rng)]
+        dname = "".join(rng.choice(ALPHA) for _ in range(rng.choice([2, 3, 4])))
+        if rng.random() < 0.5:
+            dname = dname[:1] + " " + dname[1:]
+        if dname in (".", "..") or dname.startswith("-") or any(n == dname for n, _ in pop):
+            continue
+        pop = [(n, d) for n, d in pop if not (d and (n.startswith(dname[:3]) or dname.startswith(n)))]
+        pop.append((dname, True))
+        pre = dname[:min(3, len(dname))]
+        if not any(n == pre + "_f" for n, _ in pop):
+            pop.append((pre + "_f", False))          # a plain file sharing the prefix
+        cases.append({"pop": sorted(pop), "name": dname, "is_dir": True, "ctx": rng.choice(["unq", "unq", "dq", "sq"]),
+                      "extra": 0, "cd": True})
     for _ in range(1500 if thorough else 160):
         pop = gen_population(rng)
         name, isd = rng.choice(pop)
